@@ -95,6 +95,19 @@ fn gop(name: &str) -> Option<GOp> {
         "Dequant" => GOp { op: "DequantizeLinear", attrs: vec![], extra: vec![('f', vec![], vec![2])], first: true },
         "DynQuant" => GOp { op: "DynamicQuantizeLinear", attrs: vec![], extra: vec![], first: true },
         "ReduceSum" => simple("ReduceSum"),
+        "SeqEmpty" => simple("SequenceEmpty"),
+        "SeqEmptyF" => GOp { op: "SequenceEmpty", attrs: a("dtype", Attr::Int(1)), extra: vec![], first: true },
+        "SeqEmptyI" => GOp { op: "SequenceEmpty", attrs: a("dtype", Attr::Int(6)), extra: vec![], first: true },
+        "SeqEmptyU" => GOp { op: "SequenceEmpty", attrs: a("dtype", Attr::Int(2)), extra: vec![], first: true },
+        "InsSide" => simple("SequenceInsert"),
+        "SeqConstruct" => simple("SequenceConstruct"),
+        "SeqInsF" => GOp { op: "SequenceInsert", attrs: vec![], extra: vec![('f', vec![2], vec![1])], first: true },
+        "SeqInsI" => GOp { op: "SequenceInsert", attrs: vec![], extra: vec![('i', vec![2], vec![1])], first: true },
+        "SeqAt" => GOp { op: "SequenceAt", attrs: vec![], extra: vec![('i', vec![], vec![0])], first: true },
+        "SeqLen" => simple("SequenceLength"),
+        "SeqErase" => simple("SequenceErase"),
+        "SplitToSeq" => simple("SplitToSequence"),
+        "ConcatSeq" => GOp { op: "ConcatFromSequence", attrs: a("axis", Attr::Int(0)), extra: vec![], first: true },
         "TopK" => GOp { op: "TopK", attrs: vec![], extra: vec![('i', vec![1], vec![1])], first: true },
         "Split2" => GOp { op: "Split", attrs: a("num_outputs", Attr::Int(2)), extra: vec![], first: true },
         "Dropout" => simple("Dropout"),
@@ -105,7 +118,8 @@ fn gop(name: &str) -> Option<GOp> {
 }
 const GOPS: &[&str] = &["CastF", "CastI", "CastL", "CastB", "CastU", "Shape", "Size", "Neg", "Abs", "Relu", "Identity", "Not", "IsNaN",
     "NonZero", "Sigmoid", "Flatten", "ArgMax", "EqualSelf", "AddF", "AddI", "GreaterF", "WhereCond", "Quant", "Dequant", "DynQuant",
-    "ReduceSum", "ConstOfShape", "TopK", "Split2", "Dropout", "DynQuant", "TopK", "SkipLN"];
+    "ReduceSum", "ConstOfShape", "TopK", "Split2", "Dropout", "DynQuant", "TopK", "SkipLN",
+    "SeqConstruct", "SeqInsF", "SeqInsI", "SeqAt", "SeqLen", "SeqErase", "SplitToSeq", "ConcatSeq", "SeqEmpty;InsSide", "SeqEmptyI;InsSide"];
 
 /// number of outputs of a graph operator token
 fn gop_nout(name: &str) -> usize {
@@ -123,13 +137,17 @@ fn exec_graph_line(line: &str) -> (String, String) {
     let mut decl: Vec<(u64, ValueType)> = vec![(0, dt_type(xdt))];
     let mut plan = vec![];
     let mut prev = "v0".to_string();
+    let mut side: Option<String> = None;
     for (k, tok) in ops.iter().enumerate() {
         // token = name[/mask[/next]]: mask = which outputs are connected ('1') or left unused ('0');
         // next = index of the output the chain continues from
         let parts: Vec<&str> = tok.split('/').collect();
         let o = &parts[0];
         let g = match gop(o) { Some(g) => g, None => return ("trivial-badgraph".into(), "COp {| k_key := \"\"%string; k_nout := 0%nat; k_in := []; k_out := None |}".into()) };
-        let mut ins = vec![Some(prev.clone())];
+        // SeqEmpty* has no inputs and produces the "side" sequence; InsSide inserts the chain value into it
+        let mut ins = if o.starts_with("SeqEmpty") { vec![] }
+                      else if *o == "InsSide" { match &side { Some(sd) => vec![Some(sd.clone()), Some(prev.clone())], None => break } }
+                      else { vec![Some(prev.clone())] };
         if *o == "EqualSelf" { ins.push(Some(prev.clone())); }
         for (j, (dt, shape, vals)) in g.extra.iter().enumerate() {
             let cname = format!("c{}_{}", k, j);
@@ -157,6 +175,7 @@ fn exec_graph_line(line: &str) -> (String, String) {
         let idx = |n: &Option<String>| -> String { match n { Some(n) => format!("Some {}%N", names.iter().position(|x| x == n).unwrap()), None => "None".into() } };
         plan.push(format!("{{| n_rules := {}; n_in := {}; n_out := {} |}}", rules_to_coq(&rules), coq_list(&ins, idx), coq_list(&outs, idx)));
         nodes.push(GNode::Op { name: format!("op{}", k), model_bytes: bytes, index: 0, inputs: ins, outputs: outs.clone() });
+        if o.starts_with("SeqEmpty") { side = outs[0].clone(); continue; }
         prev = match outs[next].clone() { Some(p) => p, None => break };
     }
     let vg = match no_panic(|| build_graph(nodes, &["v0"], &[prev.as_str()])) { Some(Ok(g)) => g, _ => return ("trivial-badgraph".into(), "COp {| k_key := \"\"%string; k_nout := 0%nat; k_in := []; k_out := None |}".into()) };
@@ -184,7 +203,7 @@ fn with_dtypes(c: &Case, dts: &[char]) -> Case {
     let mut k = 0;
     for i in c.inputs.iter_mut() {
         if matches!(i.sym, Sym::Missing) { continue; }
-        i.dt = dts[k];
+        i.dt = same_class(i.dt, dts[k]);
         // value-carrying inputs stay integer-valued; data is reused as is
         k += 1;
     }
@@ -258,6 +277,25 @@ fn type_specs(g: &mut G) -> Vec<String> {
     out.push(g.case("QuantizeLinear", vec![("output_dtype", Attr::Int(3))], 1, vec![f(vec![v(4)]), G::inpd('f', Sym::Shape(vec![]), vec![2])]));
     out.push(g.case("QuantizeLinear", vec![], 1, vec![f(vec![v(4)]), G::inpd('f', Sym::Shape(vec![]), vec![2])]));
     out.push(g.case("DynamicQuantizeLinear", vec![], 3, vec![f(vec![v(2), v(2)])]));
+    // sequence operators: sequences (two elements, and EMPTY) of one element type against tensors of
+    // every type (the dtype product varies the element types independently)
+    let seq = |dt: char| G::inp(dt, Sym::Shape(vec![v(2)]));
+    let pos = |p: i32| G::inp('i', Sym::Scalar(v(p)));
+    for sdt in ['F', 'G'] {
+        out.push(g.case("SequenceInsert", vec![], 1, vec![seq(sdt), f(vec![v(2)])]));
+        out.push(g.case("SequenceInsert", vec![], 1, vec![seq(sdt), f(vec![v(2)]), pos(0)]));
+        out.push(g.case("SequenceLength", vec![], 1, vec![seq(sdt)]));
+    }
+    out.push(g.case("SequenceErase", vec![], 1, vec![seq('F')]));
+    out.push(g.case("SequenceErase", vec![], 1, vec![seq('F'), pos(0)]));
+    out.push(g.case("SequenceAt", vec![], 1, vec![seq('F'), pos(0)]));
+    out.push(g.case("SequenceAt", vec![], 1, vec![seq('F'), pos(-1)]));
+    out.push(g.case("ConcatFromSequence", vec![("axis", Attr::Int(0))], 1, vec![seq('F')]));
+    out.push(g.case("ConcatFromSequence", vec![("axis", Attr::Int(0)), ("new_axis", Attr::Int(1))], 1, vec![seq('F')]));
+    out.push(g.case("SequenceConstruct", vec![], 1, vec![f(vec![v(2)])]));
+    out.push(g.case("SequenceConstruct", vec![], 1, vec![f(vec![v(2)]), f(vec![v(3)]), f(vec![v(1)])]));
+    out.push(g.case("SplitToSequence", vec![("axis", Attr::Int(0))], 1, vec![f(vec![v(4), v(2)]), G::inp('i', Sym::Vector(vec![v(1), v(3)]))]));
+    out.push(g.case("SplitToSequence", vec![("keepdims", Attr::Int(0))], 1, vec![f(vec![v(4), v(2)])]));
     out.push(g.case("SequenceEmpty", vec![], 1, vec![]));
     out.push(g.case("SequenceEmpty", vec![("dtype", Attr::Int(6))], 1, vec![]));
     out.push(g.case("SequenceConstruct", vec![], 1, vec![f(vec![v(2)]), f(vec![v(3)])]));
@@ -302,8 +340,10 @@ fn gen_lines(seed: u64, n: usize) -> Vec<String> {
             for k in 0..nin { for d in all { let mut v2 = orig.clone(); v2[k] = d; vecs.push(v2); } }
         }
         for v in vecs {
-            let l = with_dtypes(&c, &v).to_line();
-            let key = { let f: Vec<&str> = l.split('#').collect(); format!("{}#{}#{}#{}", f[0], f[1], f[2], v.iter().collect::<String>()) };
+            let cv = with_dtypes(&c, &v);
+            let l = cv.to_line();
+            let dts: String = cv.inputs.iter().map(|i| if matches!(i.sym, Sym::Missing) { '-' } else { i.dt }).collect();
+            let key = { let f: Vec<&str> = l.split('#').collect(); format!("{}#{}#{}#{}", f[0], f[1], f[2], dts) };
             // one representative per (operator instance, dtype vector, input structure class)
             if seen.insert(key) { out.push(l); }
         }
@@ -319,6 +359,19 @@ fn gen_lines(seed: u64, n: usize) -> Vec<String> {
                 let tail = g.r.pick(&["Identity", "CastI", "CastF", "Shape", "Neg"]);
                 out.push(format!("G#f#{}/{}/{};{}", op, mask, j, tail));
             }
+        }
+    }
+    // sequences built from an EMPTY sequence of every declared type (incl. no dtype attribute) or by
+    // SequenceConstruct, receiving the chain tensor (f32 or i32) or a constant of either type
+    for xdt in ['f', 'i'] {
+        for e in ["SeqEmpty", "SeqEmptyF", "SeqEmptyI", "SeqEmptyU"] {
+            for tail in ["SeqAt;CastF", "SeqAt;CastI", "SeqLen", "SeqInsF;SeqAt", "SeqInsI;SeqAt", "ConcatSeq", "SeqErase;SeqLen"] {
+                out.push(format!("G#{}#{};InsSide;{}", xdt, e, tail));
+            }
+        }
+        for tail in ["SeqInsF;SeqAt;CastI", "SeqInsI;SeqAt;CastF", "SeqErase;SeqInsI;SeqAt", "SeqErase;SeqInsF;SeqAt", "ConcatSeq;CastF", "SeqLen"] {
+            out.push(format!("G#{}#SeqConstruct;{}", xdt, tail));
+            out.push(format!("G#{}#SplitToSeq;{}", xdt, tail));
         }
     }
     for _ in 0..(n / 2 + 40) {
